@@ -10,6 +10,7 @@ CONSTANTS
   KindSet = {"good", "dup", "notr1", "lowmq", "mp_multi", "good_s2"}
   KwargsSet = {"none", "empty"}
   UseKeySet = {TRUE, FALSE}
+  NFiles = 1
   MaxRecs = 1
   Threads = 2
 INVARIANT Inv_C12_Total_NoRaise
